@@ -94,7 +94,33 @@ def gen_pair(rng):
     return kind, a, b
 
 
+def gen_dense_track(rng, tid):
+    """dense-fix track (ADS-B style): legs of 10 m - 1 km, laid out with pyproj from a start that sits next to the
+    antimeridian, next to a pole, or anywhere; mixed with a few long legs"""
+    where = rng.choice(['antimeridian', 'antimeridian', 'pole', 'pole', 'anywhere'])
+    if where == 'antimeridian':
+        start = [rng.choice([179.9998, -179.9997, 179.99995]), rng.uniform(-70.0, 70.0)]
+        az0 = 90.0 if start[0] > 0 else -90.0
+    elif where == 'pole':
+        start = [rng.uniform(-180.0, 180.0), rng.choice([1, -1]) * rng.choice([89.9995, 89.99, 89.9])]
+        az0 = rng.uniform(-180.0, 180.0)
+    else:
+        start = rnd_point(rng)
+        az0 = rng.uniform(-180.0, 180.0)
+    wps = [start]
+    for k in range(rng.choice([2, 3, 4, 5])):
+        long_leg = k > 0 and rng.random() < 0.25
+        d = rng.uniform(2e5, 3e6) if long_leg else rng.choice([rng.uniform(10.0, 250.0), rng.uniform(10.0, 250.0),
+                                                               rng.uniform(250.0, 1000.0)])
+        az = az0 + rng.uniform(-25.0, 25.0) if k == 0 or rng.random() < 0.7 else rng.uniform(-180.0, 180.0)
+        lon, lat, _ = G().fwd(wps[-1][0], wps[-1][1], az, d)
+        wps.append([float(lon), float(lat)])
+    return {'id': tid, 'kind': 'dense-' + where, 'wps': wps, 'allow': rng.random() < 0.5}
+
+
 def gen_track(rng, tid):
+    if rng.random() < 0.2:
+        return gen_dense_track(rng, tid)
     kind, a, b = gen_pair(rng)
     n = rng.choice([2, 2, 2, 3, 4, 5, 6])
     wps = [a, b]
@@ -135,6 +161,13 @@ def gen_queries(rng, index, nq):
             a = rng.choice([0.0, total * rng.uniform(0.0, 1.0), rng.choice(index[:-1]), total])
             if target >= a:
                 qs.append({'op': 'step', 'a': a, 'b': target - a, 'near_end': True})
+    # strictly inside every short leg (< 1.5 km): location and a step that stays on the leg
+    for k in range(len(index) - 1):
+        ln = index[k + 1] - index[k]
+        if 0.0 < ln < 1500.0:
+            f1, f2 = sorted((rng.uniform(0.05, 0.95), rng.uniform(0.05, 0.95)))
+            qs.append({'op': 'loc', 'd': index[k] + f1 * ln, 'short_leg': True})
+            qs.append({'op': 'step', 'a': index[k] + f1 * ln, 'b': (f2 - f1) * ln, 'short_leg': True})
     for _ in range(nq):
         r = rng.random()
         if r < 0.45:
@@ -518,6 +551,8 @@ def check_tracks(chk: Check, tracks):
         inside = 0.0 <= target <= total
         chk.case({'track': strip(trk), 'q': q}, io[0] == 'pt' and (len(trk['wps']) > 2 or target > total or 0 < target < total))
         chk.count('q:' + q['op'] + ':' + io[0] + (':' + io[1] if io[0] == 'refused' else ''))
+        if q.get('short_leg'):
+            chk.count('short-leg-query:' + trk['kind'] + ':' + io[0])
         if q.get('near_end'):
             chk.count('near-end:' + ('beyond' if target > total else 'at-or-inside') + ':' + io[0])
         # ---- property oracle ----
